@@ -41,7 +41,7 @@ Definition atom_of (c : N) : atom :=
   else A_other.
 
 (* a representative of each atom *)
-Definition rep (a : atom) : N :=
+Definition atom_rep (a : atom) : N :=
   match a with
   | A_d0 => 48 | A_d1 => 49 | A_d2 => 50 | A_d34 => 51 | A_d5 => 53 | A_d69 => 54
   | A_hex => 97 | A_v => 118 | A_alpha => 103
@@ -50,7 +50,7 @@ Definition rep (a : atom) : N :=
   | A_lb => 91 | A_rb => 93 | A_pct => 37 | A_other => 0
   end.
 
-Lemma atom_of_rep a : atom_of (rep a) = a.
+Lemma atom_of_rep a : atom_of (atom_rep a) = a.
 Proof. destruct a; reflexivity. Qed.
 
 Lemma atom_of_big c : 128 <= c -> atom_of c = A_other.
@@ -84,8 +84,8 @@ Qed.
 
 Definition sat_check (l : list N) : bool :=
   forallb (fun c => c <? 128) l
-  && forallb (fun c => Bool.eqb (mem c l) (mem (rep (atom_of c)) l)) (nrange 0 128)
-  && negb (mem (rep A_other) l).
+  && forallb (fun c => Bool.eqb (mem c l) (mem (atom_rep (atom_of c)) l)) (nrange 0 128)
+  && negb (mem (atom_rep A_other) l).
 
 Lemma mem_all_small l c : forallb (fun c => c <? 128) l = true -> 128 <= c -> mem c l = false.
 Proof.
@@ -94,7 +94,7 @@ Proof.
   cbn [mem]. rewrite (IH Hr Hc). destruct (c =? x) eqn:E; [lia|reflexivity].
 Qed.
 
-Lemma sat_ok l : sat_check l = true -> forall c, mem c l = mem (rep (atom_of c)) l.
+Lemma sat_ok l : sat_check l = true -> forall c, mem c l = mem (atom_rep (atom_of c)) l.
 Proof.
   unfold sat_check. intros H c.
   apply andb_true_iff in H. destruct H as [H H3]. apply andb_true_iff in H. destruct H as [H1 H2].
@@ -142,7 +142,7 @@ Proof.
   - cbn [re_sat] in H. apply re_sat_seq; auto.
 Qed.
 
-Lemma deriv_atom c r : re_sat r = true -> deriv c r = deriv (rep (atom_of c)) r.
+Lemma deriv_atom c r : re_sat r = true -> deriv c r = deriv (atom_rep (atom_of c)) r.
 Proof.
   induction r as [| |l|a IHa b IHb|a IHa b IHb|a IHa]; intros H; cbn [deriv]; auto.
   - cbn [re_sat] in H. rewrite (sat_ok _ H c). reflexivity.
@@ -152,7 +152,7 @@ Proof.
 Qed.
 
 (* derivative by an atom *)
-Definition deriv_a (a : atom) (r : re) : re := deriv (rep a) r.
+Definition deriv_a (a : atom) (r : re) : re := deriv (atom_rep a) r.
 Fixpoint derivs_a (r : re) (w : list atom) : re :=
   match w with [] => r | a :: t => derivs_a (deriv_a a r) t end.
 
